@@ -64,17 +64,25 @@ type diskState struct {
 	real       bool
 	realClosed atomic.Bool
 	root       kvstore.KVStore
+	views      []kvstore.KVStore // the views of the database this layer and its realm views were put on (made at cfg time)
 	// armed: the database is shut down right after it took the next write (the write happened; what follows it inside the
 	// wrappers - the Flush of flushkv - meets a closed store)
 	closeAfterSet atomic.Bool
 }
 
-func newDisk(s kvstore.KVStore) *disk { return &disk{KVStore: s, diskState: &diskState{}} }
+func newDisk(s kvstore.KVStore) *disk { return &disk{KVStore: s, diskState: &diskState{views: []kvstore.KVStore{s}}} }
 
 func (d *diskState) shut() {
 	if d.real {
 		_ = d.root.Close()
 		d.realClosed.Store(true)
+		// closing the database closes its views; where it does not (another design of Close is no concern of C07) the
+		// harness-level layer refuses instead, so that the fault still happens
+		for _, v := range d.views {
+			if _, err := v.Has(otherKey); err == nil || !ierrors.Is(err, kvstore.ErrStoreClosed) {
+				d.closed.Store(true)
+			}
+		}
 
 		return
 	}
@@ -128,6 +136,7 @@ func (d *disk) WithRealm(realm kvstore.Realm) (kvstore.KVStore, error) {
 	if err != nil {
 		return nil, err
 	}
+	d.views = append(d.views, s)
 
 	return &disk{KVStore: s, diskState: d.diskState}, nil
 }
@@ -140,6 +149,7 @@ func (d *disk) WithExtendedRealm(realm kvstore.Realm) (kvstore.KVStore, error) {
 	if err != nil {
 		return nil, err
 	}
+	d.views = append(d.views, s)
 
 	return &disk{KVStore: s, diskState: d.diskState}, nil
 }
